@@ -198,6 +198,194 @@ fn child_panic(w: usize, n: usize, p: usize, scenario: usize) -> ! {
     std::process::exit(if c == n { 0 } else { 3 });
 }
 
+// ---------------------------------------------------------------------------------------------
+// mode 5: the process-wide panic hook as a state machine (coq/theories/C09_Hook.v).
+// An operation is one integer `kind * 8 + arg`:
+//   0 NewPipe (arg mod 4 worker threads; 0 = unthreaded), 1 DropPipe arg, 2 TrainBpe, 3 PanicIn arg (pipe index in
+//   creation order), 4 PanicElsewhere (a panic on a thread that belongs to no pipe), 5 ForeignHook (code outside the
+//   crate installs a silent panic hook), 6 LockStdout / 7 UnlockStdout (the consumer thread takes / releases the
+//   process-wide stdout lock, as a `let mut out = stdout().lock(); for x in pipe { writeln!(out, ..) }` loop does).
+// The child prints `op K` before operation K; the crate's own print-only hook prints `thread panicked: ..` lines to
+// the same stream. Exit status: 0 all operations done, 1 the exit hook ended the process, 42 the consumer (or the
+// thread waiting for the panicking thread) was still blocked when the watchdog fired, 43 the stream of the panicking
+// pipe just ended, 101 the consumer thread itself panicked (unthreaded pipe) and unwound, 44 harness anomaly.
+const HOOK_MAX_PIPES: usize = 5;
+const HOOK_WATCHDOG_MS: u64 = 8_000;
+
+fn hook_child(codes: &[usize]) -> ! {
+    use std::sync::atomic::AtomicBool;
+    let mut pipes: Vec<(Option<text_utils::data::loading::Pipe<usize>>, Arc<AtomicBool>, usize)> = vec![];
+    let mut lock: Option<std::io::StdoutLock<'static>> = None;
+    let watchdog = || {
+        std::thread::spawn(|| {
+            std::thread::sleep(Duration::from_millis(HOOK_WATCHDOG_MS));
+            std::process::exit(42);
+        });
+    };
+    for (k, code) in codes.iter().enumerate() {
+        println!("op {k}");
+        let arg = code % 8;
+        match code / 8 {
+            0 => {
+                let w = arg % 4;
+                let armed = Arc::new(AtomicBool::new(false));
+                let a2 = armed.clone();
+                // exactly one item panics once the pipe is armed
+                let pipeline: text_utils::data::Pipeline<usize, usize> = Arc::new(move |x| {
+                    if a2.swap(false, Ordering::SeqCst) {
+                        panic!("boom at {x}");
+                    }
+                    x
+                });
+                pipes.push((Some((0usize..).pipe(pipeline, w as u8)), armed, w));
+            }
+            1 => {
+                if let Some(p) = pipes.get_mut(arg) {
+                    p.0 = None;
+                }
+            }
+            2 => run_train_bpe(),
+            3 => {
+                if let Some((Some(pipe), armed, w)) = pipes.get_mut(arg).map(|p| (p.0.as_mut(), p.1.clone(), p.2)) {
+                    armed.store(true, Ordering::SeqCst);
+                    if w > 0 {
+                        watchdog();
+                    }
+                    // a threaded pipe: never returns normally (exit hook, wedge or end of stream);
+                    // an unthreaded one: the panic is raised right here, on the consumer thread
+                    let mut c = 0usize;
+                    loop {
+                        match pipe.next() {
+                            Some(_) => c += 1,
+                            None => std::process::exit(43),
+                        }
+                        if c > 10_000_000 {
+                            std::process::exit(44);
+                        }
+                    }
+                }
+            }
+            4 => {
+                let h = std::thread::spawn(|| panic!("boom elsewhere"));
+                let t0 = Instant::now();
+                while !h.is_finished() {
+                    if t0.elapsed() > Duration::from_millis(HOOK_WATCHDOG_MS) {
+                        std::process::exit(42);
+                    }
+                    std::thread::sleep(Duration::from_micros(200));
+                }
+                let _ = h.join();
+            }
+            5 => std::panic::set_hook(Box::new(|_| {})),
+            6 => {
+                if lock.is_none() {
+                    lock = Some(std::io::stdout().lock());
+                }
+            }
+            7 => lock = None,
+            _ => {}
+        }
+    }
+    std::process::exit(0);
+}
+
+/// runs the child; result = (exit status or -1 for "had to be killed", number of `thread panicked` lines after each `op K`)
+fn run_hook_child(codes: &[usize]) -> (i64, Vec<usize>) {
+    static SEQ: AtomicUsize = AtomicUsize::new(0);
+    let exe = std::env::current_exe().unwrap();
+    let path = std::env::temp_dir().join(format!(
+        "verif-c09-hook-{}-{}.out",
+        std::process::id(),
+        SEQ.fetch_add(1, Ordering::SeqCst)
+    ));
+    let Ok(file) = std::fs::File::create(&path) else { return (-2, vec![]) };
+    let mut args = vec!["child-hook".to_string()];
+    args.extend(codes.iter().map(|c| c.to_string()));
+    let mut child = match std::process::Command::new(exe)
+        .args(&args)
+        .stdin(std::process::Stdio::null())
+        .stdout(std::process::Stdio::from(file))
+        .stderr(std::process::Stdio::null())
+        .spawn()
+    {
+        Ok(c) => c,
+        Err(_) => return (-2, vec![]),
+    };
+    let t0 = Instant::now();
+    let status = loop {
+        match child.try_wait() {
+            Ok(Some(st)) => break st.code().map(|c| c as i64).unwrap_or(-3),
+            Ok(None) => {
+                if t0.elapsed() > Duration::from_secs(40) {
+                    let _ = child.kill();
+                    let _ = child.wait();
+                    break -1;
+                }
+                std::thread::sleep(Duration::from_millis(2));
+            }
+            Err(_) => break -2,
+        }
+    };
+    let text = std::fs::read_to_string(&path).unwrap_or_default();
+    let _ = std::fs::remove_file(&path);
+    let mut counts: Vec<usize> = vec![];
+    for line in text.lines() {
+        if line.starts_with("op ") {
+            counts.push(0);
+        } else if line.starts_with("thread panicked") {
+            if let Some(c) = counts.last_mut() {
+                *c += 1;
+            }
+        }
+    }
+    (status, counts)
+}
+
+/// ghost bookkeeping of the harness (tags only): does operation k panic in a live threaded pipe that was created
+/// after the last foreign hook?
+fn hook_tags(codes: &[usize]) -> Vec<String> {
+    let mut pipes: Vec<(usize, bool, bool)> = vec![]; // threads, live, clobbered
+    let mut tags = vec![];
+    let mut trained_live = false;
+    for code in codes {
+        let arg = code % 8;
+        match code / 8 {
+            0 => pipes.push((arg % 4, true, false)),
+            1 => {
+                if let Some(p) = pipes.get_mut(arg) {
+                    p.1 = false;
+                }
+            }
+            2 => {
+                if pipes.iter().any(|p| p.0 > 0 && p.1) {
+                    trained_live = true;
+                }
+            }
+            3 => {
+                if let Some(p) = pipes.get(arg) {
+                    if p.1 {
+                        if p.0 > 0 && !p.2 {
+                            tags.push("nt".to_string());
+                            tags.push("protected-panic".to_string());
+                            if trained_live {
+                                tags.push("train-while-live".to_string());
+                            }
+                        } else if p.0 > 0 {
+                            tags.push("clobbered-panic".to_string());
+                        } else {
+                            tags.push("consumer-panic".to_string());
+                        }
+                        break;
+                    }
+                }
+            }
+            5 => pipes.iter_mut().for_each(|p| p.2 = true),
+            _ => {}
+        }
+    }
+    tags
+}
+
 /// true iff the child terminated, and not with the "stream silently truncated" status
 fn run_child(w: usize, n: usize, p: usize, scenario: usize) -> bool {
     let exe = std::env::current_exe().unwrap();
@@ -227,6 +415,106 @@ fn run_child(w: usize, n: usize, p: usize, scenario: usize) -> bool {
     }
 }
 
+/// a history of API calls ending (usually) in a panic in a live pipe.
+/// 85% structured: pipes are created / dropped / trained over while alive, the panic hits a live pipe; foreign hooks,
+/// panics elsewhere and the stdout lock are rare because under the unchanged code they are the only sources of a
+/// blocked child (8 s each). 15% arbitrary codes.
+fn gen_hook_ops(rng: &mut Rng) -> Vec<usize> {
+    if rng.chance(15, 100) {
+        loop {
+            let len = rng.range(0, 10);
+            let v: Vec<usize> = (0..len).map(|_| rng.below(64)).collect();
+            if v.iter().filter(|c| **c / 8 == 0).count() <= HOOK_MAX_PIPES {
+                return v;
+            }
+        }
+    }
+    let mut ops = vec![];
+    let mut pipes: Vec<(usize, bool)> = vec![]; // threads, live
+    let len = rng.range(1, 9);
+    let with_foreign = rng.chance(1, 10);
+    let with_lock = rng.chance(1, 6);
+    let with_elsewhere = rng.chance(1, 8);
+    for _ in 0..len {
+        let live: Vec<usize> = (0..pipes.len()).filter(|i| pipes[*i].1).collect();
+        let r = rng.below(100);
+        if r < 35 && pipes.len() < HOOK_MAX_PIPES && live.len() < 3 {
+            let w = *rng.pick(&[0usize, 1, 1, 2, 2, 2, 2, 3, 3, 3]);
+            pipes.push((w, true));
+            ops.push(w);
+        } else if r < 55 && !live.is_empty() {
+            let i = *rng.pick(&live);
+            pipes[i].1 = false;
+            ops.push(8 + i);
+        } else if r < 80 {
+            ops.push(16);
+        } else if r < 86 && with_elsewhere {
+            ops.push(32);
+        } else if r < 92 && with_foreign {
+            ops.push(40);
+        } else if r < 97 && with_lock {
+            ops.push(if rng.chance(3, 4) { 48 } else { 56 });
+        } else if rng.chance(1, 3) {
+            // a drop of something that is not alive / does not exist
+            ops.push(8 + rng.below(6));
+        } else {
+            ops.push(16);
+        }
+    }
+    let live: Vec<usize> = (0..pipes.len()).filter(|i| pipes[*i].1).collect();
+    if live.is_empty() || rng.chance(1, 12) {
+        if pipes.len() < HOOK_MAX_PIPES {
+            let w = rng.range(1, 3);
+            ops.push(w);
+            ops.push(24 + pipes.len());
+        }
+    } else {
+        ops.push(24 + *rng.pick(&live));
+    }
+    ops
+}
+
+/// every history of length <= 4 over {NewPipe 0/1/2, DropPipe 0/1, TrainBpe, PanicIn 0/1, LockStdout} in which
+/// nothing follows a panic in a live pipe
+fn hook_exhaustive() -> Vec<Vec<usize>> {
+    const ALPHA: [usize; 9] = [0, 1, 2, 8, 9, 16, 24, 25, 48];
+    let mut res = vec![];
+    for len in 1..=4usize {
+        for code in 0..ALPHA.len().pow(len as u32) {
+            let mut c = code;
+            let v: Vec<usize> = (0..len)
+                .map(|_| {
+                    let x = ALPHA[c % ALPHA.len()];
+                    c /= ALPHA.len();
+                    x
+                })
+                .collect();
+            let mut pipes: Vec<bool> = vec![];
+            let mut dead_tail = false;
+            for (k, op) in v.iter().enumerate() {
+                match op / 8 {
+                    0 => pipes.push(true),
+                    1 => {
+                        if let Some(p) = pipes.get_mut(op % 8) {
+                            *p = false;
+                        }
+                    }
+                    3 => {
+                        if pipes.get(op % 8) == Some(&true) && k + 1 < len {
+                            dead_tail = true;
+                        }
+                    }
+                    _ => {}
+                }
+            }
+            if !dead_tail {
+                res.push(v);
+            }
+        }
+    }
+    res
+}
+
 fn choices(rng: &mut Rng, n: usize, w: usize) -> Vec<Val> {
     let len = rng.range(0, 12 * n + 8);
     let style = rng.below(4);
@@ -244,17 +532,29 @@ fn choices(rng: &mut Rng, n: usize, w: usize) -> Vec<Val> {
 impl Prop for C09 {
     fn gen(&mut self, rng: &mut Rng, tier: Tier, _i: usize, _n: usize) -> Val {
         let m = rng.below(100);
-        let mode = if m < 45 {
+        let mode = if m < 44 {
             0
-        } else if m < 85 {
+        } else if m < 82 {
             1
-        } else if m < 91 {
+        } else if m < 87 {
             2
+        } else if m < 92 {
+            5
         } else if m < 96 {
             3
         } else {
             4
         };
+        if mode == 5 {
+            return Val::L(vec![
+                Val::I(5),
+                Val::list(gen_hook_ops(rng).into_iter(), Val::u),
+                Val::u(0),
+                Val::L(vec![]),
+                Val::I(0),
+                Val::I(0),
+            ]);
+        }
         let maxn = if tier == Tier::Thorough { 12 } else { 8 };
         let n = rng.range(0, maxn);
         let xs: Vec<Val> = (0..n).map(|_| Val::I(rng.below(50) as i64)).collect();
@@ -338,6 +638,18 @@ impl Prop for C09 {
                         ]));
                     }
                 }
+            }
+        }
+        for (j, h) in hook_exhaustive().into_iter().enumerate() {
+            if j % m == k {
+                v.push(Val::L(vec![
+                    Val::I(5),
+                    Val::list(h.into_iter(), Val::u),
+                    Val::u(0),
+                    Val::L(vec![]),
+                    Val::I(0),
+                    Val::I(0),
+                ]));
             }
         }
         Some(v)
@@ -432,6 +744,19 @@ impl Prop for C09 {
                 tags.push(format!("ahead{a}"));
                 Val::L(vec![Val::I(a), Val::I(b), Val::b(e)])
             }
+            5 => {
+                let codes: Vec<usize> = xs.iter().map(|x| (*x).max(0) as usize).collect();
+                if codes.len() > 24
+                    || codes.iter().any(|c| *c >= 64)
+                    || codes.iter().filter(|c| **c / 8 == 0).count() > HOOK_MAX_PIPES
+                {
+                    return None;
+                }
+                let (status, counts) = run_hook_child(&codes);
+                tags.extend(hook_tags(&codes));
+                tags.push(format!("status{status}"));
+                Val::L(vec![Val::I(status), Val::list(counts.iter(), |c| Val::u(*c))])
+            }
             _ => return None,
         };
         Some((out, tags))
@@ -443,6 +768,10 @@ fn main() {
     if args.get(1).map(|s| s.as_str()) == Some("child-panic") {
         let g = |i: usize| args.get(i).and_then(|s| s.parse::<usize>().ok()).unwrap_or(0);
         child_panic(g(2), g(3), g(4), g(5));
+    }
+    if args.get(1).map(|s| s.as_str()) == Some("child-hook") {
+        let codes: Vec<usize> = args[2..].iter().filter_map(|s| s.parse::<usize>().ok()).collect();
+        hook_child(&codes);
     }
     main_loop(C09);
 }
